@@ -38,3 +38,22 @@ func (v *VerifPRNG) Int63n(n int64) int64              { return v.p.Int63n(n) }
 func (v *VerifPRNG) Range(min, max int) int            { return v.p.Range(min, max) }
 func (v *VerifPRNG) FlipWeightedCoin(w float64) bool   { return v.p.FlipWeightedCoin(w) }
 func (v *VerifPRNG) Perm(n int) []int                  { return v.p.Perm(n) }
+
+// VerifSetSeq moves a connection's record sequence numbers (property C28 quantifies over sequence
+// positions that cannot be reached by sending records one by one). Negative values leave a side alone.
+func VerifSetSeq(c *Conn, out, in int64) {
+	put := func(dst *[8]byte, v uint64) {
+		for i := 7; i >= 0; i-- {
+			dst[i] = byte(v)
+			v >>= 8
+		}
+	}
+	if out >= 0 {
+		c.out.Lock()
+		put(&c.out.seq, uint64(out))
+		c.out.Unlock()
+	}
+	if in >= 0 {
+		put(&c.in.seq, uint64(in)) // the reader holds c.in while it waits for the next record
+	}
+}
